@@ -47,6 +47,10 @@ class Rec:
 _CLASSES = None
 
 
+class TrainBoom(Exception):
+    """Raised by a harness trainer's train() after it has changed some parameters."""
+
+
 def make_classes():
     from pamiq_core.interaction import Agent
     from pamiq_core.model import InferenceModel, TrainingModel
@@ -108,6 +112,7 @@ def make_classes():
             self.got: dict[str, object] = {}
             self.plan: list[tuple[str, int]] = []
             self.auto = False
+            self.fail = False            # train() raises after having changed the planned parameters
 
         def obtain(self, k: str) -> str:
             try:
@@ -130,6 +135,9 @@ def make_classes():
                     m.version += 1
             for k, v in self.plan:
                 self.got[k].version = v
+            if self.fail:
+                self.rec.ev("train_raise", self.name)
+                raise TrainBoom(self.name)
             self.rec.ev("train_end", self.name)
 
     class VAgent(Agent):
@@ -174,7 +182,8 @@ class Monitor:
     def __init__(self, case, specs) -> None:
         self.case = case
         self.flags = {n: (h, i) for n, h, i, _ in specs}
-        self.expected = {n: v for n, _, _, v in specs}      # latest trained / loaded parameters
+        self.expected = {n: v for n, _, _, v in specs}      # latest *completed* training / load
+        self.current = {n: v for n, _, _, v in specs}       # training-side parameters right now
         self.retrieved: dict[str, set[str]] = {}
         self.violations: list[Violation] = []
 
@@ -338,14 +347,54 @@ def run_case(case: dict, driver):
                 ran = tr.run()
                 log = rec.take()
                 for k, v in bumps:
-                    mon.expected[k] = v
+                    mon.current[k] = v
                 want = {k for k in mon.retrieved.get(t, set()) if mon.need_sync(k)}
+                for k in want:
+                    mon.expected[k] = mon.current[k]      # the completed run hands over what it trained
                 mon.after_sync_phase(f"run of {t}", log, want, models, agent.held, before_inf)
                 if ran is not True:
                     mon.bad("run", f"run of {t} returned {ran!r}")
                 synced = sorted((x[1], x[2].oid) for x in log if x[0] == "sync")
                 lines.append(f"models run {t} [" + ",".join(f"{k}={v}" for k, v in bumps) + "]")
                 impl.append("synced=[" + ",".join(f"{k}:{o}" for k, o in synced) + "]")
+            elif kind == "run_fail":
+                _, t, bumps = op
+                tr = trainers[t]
+                tr.plan = [(k, v) for k, v in bumps]
+                tr.fail = True
+                try:
+                    tr.run()
+                    outcome = "returned"
+                except TrainBoom:
+                    outcome = "raised"
+                finally:
+                    tr.fail = False
+                log = rec.take()
+                for k, v in bumps:
+                    mon.current[k] = v                    # training side only: the run did not complete
+                mon.after_sync_phase(f"aborted run of {t}", log, set(), models, agent.held, before_inf)
+                if outcome != "raised":
+                    mon.bad("run", f"run of {t} swallowed the exception of train()")
+                synced = sorted((x[1], x[2].oid) for x in log if x[0] == "sync")
+                lines.append(f"models run_fail {t} [" + ",".join(f"{k}={v}" for k, v in bumps) + "]")
+                impl.append(outcome + " synced=[" + ",".join(f"{k}:{o}" for k, o in synced) + "]")
+            elif kind == "set_item":
+                # a model registered after launch() has wired the system: the agent holds the live dictionary
+                _, n, h, i, v = op
+                m = VModel(rec, n, h, i, v)
+                tmd[n] = m
+                rec.take()
+                models[n] = m
+                mon.flags[n] = (h, i)
+                mon.expected[n] = mon.current[n] = v
+                agent.held.pop(n, None)
+                lines.append(f"models set_item {n}:{int(h)}{int(i)}:{v}")
+                impl.append("ok")
+                o = agent.look(n)                          # what a lazily looking agent does next
+                rec.take()
+                mon.agent_get(n, o, m)
+                lines.append(f"models agent_get {n}")
+                impl.append(f"obj={o.oid} v={o.version}" if o is not None else "err KeyError")
             elif kind == "save":
                 d = tmp / f"s{len(saved)}"
                 d.mkdir()
@@ -363,7 +412,7 @@ def run_case(case: dict, driver):
                 tmd.load_state(saved[idx])
                 log = rec.take()
                 for k, v in saved_versions[idx].items():
-                    mon.expected[k] = v
+                    mon.expected[k] = mon.current[k] = v
                 want = {k for k in models if mon.need_sync(k)}
                 mon.after_sync_phase("load", log, want, models, agent.held, before_inf)
                 for k, m in models.items():
@@ -427,6 +476,31 @@ def gen_case(rng, n_models=None, n_ops=None):
             ops.append(["trainer_get", t, k])
             if k in gettable and k not in have[t]:
                 have[t].append(k)
+        elif trainers and r < 0.66:
+            # train() raises part-way: the parameters it touched stay changed on the training side only
+            t = rng.choice(trainers)
+            bump_names = [k for k in have[t] if rng.random() < 0.6]
+            ops.append(["run_fail", t, [[k, next(vcount)] for k in bump_names]])
+        elif r < 0.7 and n_saves == 0:
+            # a model registered after the wiring (new name, or an unretrieved inference-bearing one replaced)
+            free = [n for n in MODEL_NAMES + ["late1", "late2"] if n not in pool]
+            repl = [m[0] for m in valid if m[1] and all(m[0] not in have[t] for t in trainers)]
+            cand = free + repl
+            if cand:
+                n = rng.choice(cand)
+                h, i = rng.choice([(True, False), (True, True), (False, False)]) if n in free else (True, rng.random() < 0.5)
+                ops.append(["set_item", n, h, i, next(vcount)])
+                if n in free:
+                    pool.append(n)
+                    valid.append([n, h, i, 0])
+                else:
+                    for m in valid:
+                        if m[0] == n:
+                            m[1], m[2] = h, i
+                if not i and n not in gettable:
+                    gettable.append(n)
+                if i and n in gettable:
+                    gettable.remove(n)
         elif r < 0.7:
             ops.append(["agent_get", rng.choice(pool)])
         elif r < 0.85:
